@@ -648,3 +648,54 @@ func RunBoundsControls(r *Report) {
 	r.Floor("provercontrol", 53)
 	_, _ = nBad, nGood
 }
+
+// RunEffectControls runs the write-effect analysis on the ctlRO* methods of
+// /verif/controls/effects.go: every ctlROBad* method writes memory reachable
+// from its receiver and must be reported, every ctlROGood* method must pass.
+func RunEffectControls(r *Report) {
+	r.Rule("effectcontrol: the write-effect analysis, run on the must-report and must-pass methods in /verif/controls/effects.go, reports every method that writes memory reachable from its receiver (through fields, elements, aliases, helpers, interfaces, closures, method values, in-place append, sort, copy, maps, goroutines, defers, lazy initialisation, recursion) and none that only reads it")
+	cw, err := controlWorld(r.verifDir)
+	if err != nil {
+		r.Fail("effectcontrol", r.MkKey("effectcontrol", "controls", "load"), "-", "cannot load the control package: "+err.Error(), nil)
+		return
+	}
+	var names []string
+	for _, f := range cw.LibFuncs() {
+		if strings.HasPrefix(f.Name(), "ctlRO") && f.Parent() == nil {
+			names = append(names, fnName(f))
+		}
+	}
+	sort.Strings(names)
+	sub := NewReport(r.Property, r.Tier, r.verifDir)
+	sub.table = map[string]TableEntry{}
+	sub.known = map[string]KnownFinding{}
+	sub.W = cw
+	func() {
+		defer func() {
+			if x := recover(); x != nil {
+				r.Fatal("effects engine panic on the control package: %v", x)
+			}
+		}()
+		RunReadOnly(cw, sub, NewEffects(cw), "readonly", names, 0)
+	}()
+	for _, o := range sub.Obls {
+		if o.Rule != "readonly" {
+			continue
+		}
+		parts := strings.Split(o.Key, "|")
+		name := parts[1]
+		key := r.MkKey("effectcontrol", name, "verdict")
+		reported := o.Status == StViolation
+		switch {
+		case strings.Contains(name, "ctlROBad") && reported:
+			r.OK("effectcontrol", key, o.Pos, "reported: "+o.Detail)
+		case strings.Contains(name, "ctlROBad"):
+			r.Fail("effectcontrol", key, o.Pos, "this method writes memory reachable from its receiver and the effect analysis does not report it: the analysis is unsound and its verdicts on the library cannot be believed", nil)
+		case strings.Contains(name, "ctlROGood") && !reported:
+			r.OK("effectcontrol", key, o.Pos, "no write reported")
+		default:
+			r.Fail("effectcontrol", key, o.Pos, "this read-only method is reported: "+o.Detail, nil)
+		}
+	}
+	r.Floor("effectcontrol", 37)
+}
